@@ -40,6 +40,10 @@ class ClientRig(console.ApiRig):
         key = n
         if key not in self.cbs:
             async def f(ident, _n=n):
+                if _n % 3 == 1:
+                    # a subscriber that suspends before it has done its work (others may fail meanwhile)
+                    await asyncio.sleep(0)
+                    await asyncio.sleep(0)
                 self.calls.append((_n, ident if isinstance(ident, int) else 0))
                 if _n in self.raising:
                     raise RuntimeError("subscriber failure (simulated)")
